@@ -196,8 +196,48 @@ def degenerate(cell):
     return {'v': out, 'n': 1, 'nt': cell}
 
 
+def after_failure(cell):
+    """the limits are this calculator's configuration for EVERY call - also for the calls after one that ended in an error (a zeroing out of
+    reach, a shot that met a limit): the same fire on the long-used calculator and on a fresh one stop at the same row for the same reason"""
+    import py_ballisticcalc as pb
+    U = pb.Unit
+    cfg, first = cell
+    dm = pb.DragModel(0.223, pb.TableG7, U.Grain(168), U.Inch(0.308), U.Inch(1.282))
+
+    def shot(**kw):
+        return pb.Shot(pb.Weapon(U.Inch(2), U.Inch(12)), pb.Ammo(dm, U.FPS(2750)), **kw)
+    calc = pb.Calculator(_config=dict(cfg))
+    try:
+        if first == 'zero_out_of_reach':
+            calc.set_weapon_zero(shot(), U.Yard(9000))
+        elif first == 'zero_steep':
+            calc.set_weapon_zero(shot(look_angle=U.Degree(-40)), U.Yard(3000))
+        elif first == 'fire_limit':
+            calc.fire(shot(relative_angle=U.Degree(-20)), U.Yard(2000), U.Yard(100))
+        elif first == 'zero_ok':
+            calc.set_weapon_zero(shot(), U.Yard(100))
+    except (pb.RangeError, pb.ZeroFindingError):
+        pass
+
+    def run(c):
+        res = []
+        for kw in ({}, {'relative_angle': U.Degree(-3)}, {'relative_angle': U.Degree(45)}):
+            try:
+                rows = c.fire(shot(**kw), U.Yard(3000), U.Yard(100)).trajectory
+                res.append(['ok', len(rows), row_bits(rows[-1])])
+            except pb.RangeError as e:
+                res.append([e.reason, len(e.incomplete_trajectory), row_bits(e.incomplete_trajectory[-1])])
+        return res
+    got, exp = run(calc), run(pb.Calculator(_config=dict(cfg)))
+    out = []
+    if got != exp:
+        i = next(i for i, (a, b) in enumerate(zip(got, exp)) if a != b)
+        out.append({'msg': f'limits {cfg}: after {first} on this calculator, shot {i} ends with {got[i][:2]}; the same shot on a fresh calculator of that configuration ends with {exp[i][:2]}', 'key': None})
+    return {'v': out, 'n': 7, 'nt': cell}
+
+
 BUDGETS = {'degenerate': 30}
-PARTS = {'fire': fire, 'align': align, 'degenerate': degenerate}
+PARTS = {'fire': fire, 'align': align, 'degenerate': degenerate, 'after_failure': after_failure}
 
 
 def plan(tier):
@@ -245,4 +285,6 @@ def plan(tier):
     # range/10-sized increments up to the first integration point, ~1e9 iterations for a range of 1e-9 yd - slow, not a limit of this property's domain)
     dg = [[rng, step, extra, bare] for rng in (0.0, 50.0) for step in (None, 0.0, 10.0) for extra in (False, True) for bare in (False, True)
           if not (rng == 50.0 and step == 10.0)]
-    return [('fire', cells), ('align', al), ('degenerate', dg)]
+    af = [[cfg, first] for cfg in ({'cMaximumDrop': -40.0}, {'cMinimumVelocity': 1500.0}, {'cMinimumAltitude': -30.0}, {})
+          for first in ('zero_out_of_reach', 'zero_steep', 'fire_limit', 'zero_ok')]
+    return [('fire', cells), ('align', al), ('degenerate', dg), ('after_failure', af)]
